@@ -1,0 +1,11 @@
+//go:build !verif
+
+// Package vhook holds verification hooks. Without the `verif` build tag
+// every function is an empty stub that the compiler inlines away.
+package vhook
+
+const Enabled = false
+
+func Event(name string, kv ...any) {}
+
+func Yield(point string, key any) {}
